@@ -62,7 +62,7 @@ def run(tier, seed, replay=None):
     rule = ("THREADS: 2..16 threads, each running 1..8 rounds of a seeded workload on its own contexts and files (write a file with random "
             "hash types / compression / dictionary / chunking, read it back, names of unknown hash and compression types, validation of the "
             "file / a damaged copy / a truncated copy with the error text, chunk-wise access in scrambled order, copy of shared chunks into "
-            "a second file with missing-range computation and a zckDL object, range strings), logging to an fd / a callback / off; the same "
+            "a second file with missing-range computation and a zckDL object on which the download of the missing extents is then RUN (a multipart response with the thread's own boundary string, fed through zck_header_cb / zck_write_chunk_cb in pieces), range strings), logging to an fd / a callback / off; the same "
             "workloads are then run serially and the per-operation results compared by the model's interleaving semantics; ThreadSanitizer "
             "build (data races end the case), plain build and the build with the bundled checksum code; distinct by (threads, rounds, seed, log mode)")
     work_env = {'TSAN_OPTIONS': 'exitcode=66 halt_on_error=1 second_deadlock_stack=1 log_path=%s' % os.path.join(E.VERIF, '.cache', 'tsan-c19')}
